@@ -96,6 +96,15 @@ def main(tier):
                     ratio_scalar = fac(u) / mag
                     if ppb(fac(u) / mag2) > ppb(ratio_scalar):
                         ratio_scalar = fac(u) / mag2
+                    # third grouping: every repeated factor written with the power operator,  a ** 2 * b / c ** 3
+                    if any(abs(p["exp"]) >= 2 for p in g["parts"]):
+                        acc3 = 1.0
+                        for p in g["parts"]:
+                            f_ = Scalar(float(p["pre"]), p["atom"]) ** abs(p["exp"])
+                            acc3 = acc3 * f_ if p["exp"] > 0 else acc3 / f_
+                        mag3 = basemag(acc3) if not isinstance(acc3, float) else acc3
+                        if ppb(fac(u) / mag3) > ppb(ratio_scalar):
+                            ratio_scalar = fac(u) / mag3
                     # the same amount brought to base units by the library itself: added to a zero amount composed of the parts' base
                     # units (unit matching with exponents on a database that has matched many other rows before), once with
                     # the default categories and once with a different category of the quantity type for every repeated factor
